@@ -1,6 +1,7 @@
 package gen
 
 import (
+	"fmt"
 	"math/rand"
 
 	"go.etcd.io/bbolt/verifh/model"
@@ -22,6 +23,7 @@ type Config struct {
 	MaxDepth  int                         // bucket nesting
 	NoBigKeys bool
 	Managed   float64 // probability that a write transaction runs inside DB.Update (body returns nil, an error, or panics)
+	FailCommit float64 // probability that the commit of an (unmanaged) write transaction gets one injected I/O failure
 }
 
 func (c *Config) defaults() {
@@ -344,6 +346,14 @@ func Generate(seed int64, caseNo int, cfg Config) *Program {
 				how = "panic"
 			}
 			g.emit(Step{Op: "rollback", How: how})
+		} else if !managed && cfg.FailCommit > 0 && r.Float64() < cfg.FailCommit {
+			// the k-th I/O call of this commit fails once (an ordinary commit if it issues fewer calls);
+			// for page writes sometimes after the first 512 bytes
+			how := fmt.Sprintf("fail:%d", 1+r.Intn(14))
+			if r.Intn(3) == 0 {
+				how += ":512"
+			}
+			g.emit(Step{Op: "commit", How: how})
 		} else {
 			g.emit(Step{Op: "commit"})
 		}
